@@ -69,6 +69,10 @@ def e1_cases(tier):
         pre1 = ["len(A0) == 1"]
         cs.append(engine.exc_case("%s('x', Pregex(A0) + OneOrMore('b') + Pregex(A1))" % cls, [("A0", "str"), ("A1", "str")], ["len(A0) == 1 and len(A1) == 1"],
                                   required=NF, name="%s('x', A0 + OneOrMore('b') + A1) refused whatever characters surround the variable part" % cls))
+        # the verdict concerns the assertion pattern alone: a match pattern that cannot be compiled by itself (a back-reference to a
+        # group defined elsewhere) must not change it
+        cs.append(engine.exc_case("%s(Backreference('q'), Optional(A0))" % cls, P1, pre1, required=NF, must_parse=False,
+                                  name="%s(Backreference('q'), Optional(A0)) refused although the match pattern is a back-reference" % cls))
         cs.append(engine.exc_case("%s('x', AnyFrom(A0))" % cls, P1, pre1, forbidden=[NF], name="%s('x', AnyFrom(A0)) accepted" % cls))
         cs.append(engine.exc_case("Pregex('x').%s(AnyFrom(A0, 'b'))" % meth, P1, pre1, forbidden=[NF], name="x.%s(AnyFrom(A0,'b')) accepted" % meth))
         cs.append(engine.exc_case("%s('x', OneOrMore(AnyFrom(A0)))" % cls, P1, pre1, required=NF, name="%s('x', OneOrMore(AnyFrom(A0))) refused" % cls))
